@@ -6,7 +6,9 @@ Completeness theorems about the `Prove` layer (`Prove.onLastState`, `Prove.onPro
 `SendLastStateProcess::execute` / `SendLastStateProofProcess::execute`, tied to the code by the
 differential harness): answers an honest server gives are accepted, the peer's proved state and the
 stored tip move to the announced header.  Section 4 is the honest answer without sampled headers
-(banned before 1d2c7d1, accepted now; the old rule is kept as `oldCheckMatched`).  Section 6 is the TAU check of an
+(banned before 1d2c7d1, accepted now; the old rule is kept as `oldCheckMatched`), including the
+answer whose last-N section is longer than `last_n_blocks` (still banned after 1d2c7d1, accepted
+now: `answer_without_samples_long_section_accepted_shape`).  Section 6 is the TAU check of an
 answer whose first sampled header is the genesis header (failed before c30d699: a second round
 trip; checked from the next header now, `Prove.tauStartIdx`).  Section 5
 keeps, as closed statements about the model, the honest exchanges the code rejects (found by the
@@ -468,7 +470,7 @@ theorem answer_without_samples_accepted_shape (lastN : Nat) (c : ReqContent) (rs
     (hb : a.ptd < c.boundary) (hd : ∀ d ∈ c.difficulties.head?, a.ptd < d) :
     checkMatched lastN c (rs ++ a :: t) l = .ok (.ok (rs.length, 0, lastN)) :=
   checkMatched_no_sampled hsorted hrs hreorg hstart hlen hg hgl hl
-    (checkNoSampled_eq_none.2 ⟨hgap, rfl, hb, hd⟩)
+    (checkNoSampled_eq_none.2 ⟨hgap, Nat.le_refl _, hb, hd⟩)
 
 /-- the witness of `zero_samples_answer_is_accepted` is an instance (no reorg headers) -/
 example : checkMatched 1 zsContent [blk 56 56 55] (blk 57 57 56) = .ok (.ok (0, 0, 1)) :=
@@ -483,6 +485,100 @@ example : checkMatched 1 { zsContent with difficulties := [440, 444] } [blk 56 5
     checkMatched 1 { zsContent with boundary := 440 } [blk 56 56 55] (blk 57 57 56)
       = .ok (.error 400) :=
   ⟨by rfl, by rfl⟩
+
+/-! ### the last-N section is longer than `last_n_blocks` -/
+
+/-- **the accepted shape without sampled headers when more than `last_n_blocks` blocks follow the
+boundary block.**  In the sampling branch (`lastN < last - start`, `start_number <` first last-N
+header) the server's last-N section begins at the block `a` that reaches the difficulty boundary
+(its parent does not: `a.ptd < boundary ≤` total difficulty of `a`); when more than
+`last_n_blocks` blocks follow `a`, the section `a :: t` — sorted, ending at the parent of the last
+header — is **longer** than `last_n_blocks`, and when every requested difficulty lies inside block
+`a` or later (the first one, they are increasing, lies above `a.ptd`) nothing is sampled.  Such
+an answer — after reorg headers `rs` (below the start, ending at `start - 1`, `lastN` of them or
+beginning at block 1, none of them reaching the boundary; none at all when the request starts from
+the peer's own proved state) — passes `check_if_response_is_matched` with the shape
+`(reorg, 0, |a :: t|)`.  Nothing has to be assumed about the total difficulties of the later
+headers `t`: the handler counts the headers below the boundary front to back and stops at `a`.
+
+Before the repair of `check_if_response_is_matched` that followed 1d2c7d1 the branch without
+sampled headers insisted on **exactly** `last_n_blocks` last-N headers (`last_n_count !=
+last_n_blocks` → 400 `MalformedProtocolMessage`): this honest answer got the peer banned, see the
+closed instance `long_section_answer_is_accepted`. -/
+theorem answer_without_samples_long_section_accepted_shape (lastN : Nat) (c : ReqContent)
+    (rs : List VH) (a : VH) (t : List VH) (l g : VH) (atd : Nat)
+    (hsorted : checkMatched.sorted (rs ++ a :: t) = true)
+    (hrs : ∀ x ∈ rs, x.number < c.startNumber)
+    (hreorg : rs ≠ [] → (rs.length = lastN ∨ rs.head?.map (·.number) = some 1) ∧
+      rs.getLast?.map (·.number) = some (c.startNumber - 1))
+    (hrtd : ∀ x ∈ rs, ∃ xtd, x.td = .ok xtd ∧ xtd < c.boundary)
+    (hstart : c.startNumber < a.number) (hgap : lastN < l.number - c.startNumber)
+    (hlen : lastN < (a :: t).length)
+    (hg : (a :: t).getLast? = some g) (hgl : g.number + 1 = l.number) (hl : l.number ≤ U64_MAX)
+    (hb : a.ptd < c.boundary) (hatd : a.td = .ok atd) (hab : c.boundary ≤ atd)
+    (hd : ∀ d ∈ c.difficulties.head?, a.ptd < d) :
+    checkMatched lastN c (rs ++ a :: t) l = .ok (.ok (rs.length, 0, (a :: t).length)) :=
+  checkMatched_no_sampled_long hsorted hrs hreorg hrtd hatd hab hstart hlen hg hgl hl
+    (checkNoSampled_eq_none.2 ⟨hgap, Nat.le_of_lt hlen, hb, hd⟩)
+
+/-- `last_n_blocks = 2`, start block 93, last block 98; the boundary 750 and the one requested
+difficulty 748 both lie in `(744, 752]` = (total difficulty of block 93, of block 94] -/
+def lsContent : ReqContent := ⟨98, 93, 93, 2, 750, [748]⟩
+
+/-- the branch `!has_all_blocks` without sampled headers as it was in the pinned tree plus
+1d2c7d1, before the repair: the last-N section had to have **exactly** `last_n_blocks` entries -/
+def checkNoSampled_1d2c7d1 (lastN : Nat) (c : ReqContent) (f : VH) (lastNumber lastNCount : Nat) :
+    Option Nat :=
+  if ¬ lastN < lastNumber - c.startNumber then some 400
+  else if lastNCount ≠ lastN || c.boundary ≤ f.ptd then some 400
+  else match c.difficulties with
+    | d :: _ => if d ≤ f.ptd then some 451 else none
+    | [] => none
+
+/-- **an honest answer without sampled headers whose last-N section is longer than
+`last_n_blocks` is accepted.**  `last_n_blocks = 2`; the client asks for the proof of block 98
+from start block 93 with the boundary and the one requested difficulty inside block 94.  By the
+server rule block 94 is the boundary block — four blocks, more than `last_n_blocks`, follow its
+parent —, the last-N section is `[94, 98)` and the difficulty, above the total difficulty of block
+93, is dropped: the honest answer is the four headers 94..97.  The handler counts no header below
+the boundary, a last-N section of 4 > 2 headers and no sampled header; the section does not start
+at the start block 93, but more than last-N blocks are missing, the section is complete, block 93
+does not reach the boundary and the requested difficulty lies inside block 94: shape `(0, 0, 4)`.
+
+The code of the pinned tree plus 1d2c7d1 answered 400 `MalformedProtocolMessage` here
+(`last_n_count != last_n_blocks`: 4 ≠ 2 — third conjunct, on the arguments `checkMatched` passes)
+and banned the honest peer. -/
+theorem long_section_answer_is_accepted :
+    rfcAnswer (fun n => 8 * n) 93 98 2 750 [748] = ([], [94, 95, 96, 97]) ∧
+    checkMatched 2 lsContent [blk 94 94 93, blk 95 95 94, blk 96 96 95, blk 97 97 96]
+      (blk 98 98 97) = .ok (.ok (0, 0, 4)) ∧
+    (checkNoSampled_1d2c7d1 2 lsContent (blk 94 94 93) 98 4 = some 400 ∧
+      checkNoSampled 2 lsContent (blk 94 94 93) 98 4 = none) :=
+  ⟨by decide, by rfl, by decide, by decide⟩
+
+/-- the witness of `long_section_answer_is_accepted` is an instance (no reorg headers) -/
+example : checkMatched 2 lsContent [blk 94 94 93, blk 95 95 94, blk 96 96 95, blk 97 97 96]
+    (blk 98 98 97) = .ok (.ok (0, 0, 4)) :=
+  answer_without_samples_long_section_accepted_shape 2 lsContent [] _ _ _ (blk 97 97 96) 752 rfl
+    (by simp) (fun h => absurd rfl h) (by simp) (by decide) (by decide) (by decide) rfl rfl
+    (by decide) (by decide) rfl (by decide) (by decide)
+
+/-- the premises are needed: the same answer to a request whose first difficulty (744) is reached
+by block 93 already skips a sample — 451 `InvalidSamples` —; with a boundary (744) that block 93
+reaches it is malformed — 400 —; and so is the section without its first header (the server left
+out block 94, the first block that reaches the boundary) — 400.  With a boundary (760) that block
+94 does not reach, block 94 is not a last-N header but a sampled one (it answers the requested
+difficulty 748): shape `(0, 1, 3)` -/
+example :
+    checkMatched 2 { lsContent with difficulties := [744, 748] }
+      [blk 94 94 93, blk 95 95 94, blk 96 96 95, blk 97 97 96] (blk 98 98 97) = .ok (.error 451) ∧
+    checkMatched 2 { lsContent with boundary := 744 }
+      [blk 94 94 93, blk 95 95 94, blk 96 96 95, blk 97 97 96] (blk 98 98 97) = .ok (.error 400) ∧
+    checkMatched 2 lsContent [blk 95 95 94, blk 96 96 95, blk 97 97 96] (blk 98 98 97)
+      = .ok (.error 400) ∧
+    checkMatched 2 { lsContent with boundary := 760 }
+      [blk 94 94 93, blk 95 95 94, blk 96 96 95, blk 97 97 96] (blk 98 98 97) = .ok (.ok (0, 1, 3)) :=
+  ⟨by rfl, by rfl, by rfl, by rfl⟩
 
 /-! ### the rule before 1d2c7d1 -/
 
